@@ -180,7 +180,16 @@ where
         self.inner.seek(SeekFrom::Start(cpos))?;
         self.position = cpos;
 
-        self.read_block()?;
+        if self.read_block()? == 0 {
+            // There is no data at or after `cpos`. Discard the block that was loaded before the
+            // seek so that it is neither read again nor used to report the position.
+            self.block.set_position(self.position);
+            self.block.set_size(0);
+
+            let data = self.block.data_mut();
+            data.set_position(0);
+            data.resize(0);
+        }
 
         let upos = usize::from(upos);
 
